@@ -2,11 +2,14 @@
 """Copy behaviour-preserving refactor patches from /tmp/refac/Gx/out/<n> into /verif/refactors/Gx-<n>/."""
 import json, os, shutil, sys, glob
 VERIF = os.path.dirname(os.path.dirname(os.path.abspath(__file__)))
-for src in sorted(glob.glob("/tmp/refac/*/out/*")):
+import sys
+ROOT = sys.argv[1] if len(sys.argv) > 1 else "/tmp/refac"
+TAG = sys.argv[2] if len(sys.argv) > 2 else ""
+for src in sorted(glob.glob(ROOT + "/*/out/*")):
     if not os.path.exists(os.path.join(src, "patch.diff")):
         continue
     g = src.split("/")[3]; n = os.path.basename(src)
-    dst = os.path.join(VERIF, "refactors", f"{g}-{n}")
+    dst = os.path.join(VERIF, "refactors", f"{g}-{TAG}{n}")
     os.makedirs(dst, exist_ok=True)
     for f in ("patch.diff", "notes.md"):
         if os.path.exists(os.path.join(src, f)):
@@ -17,4 +20,4 @@ for src in sorted(glob.glob("/tmp/refac/*/out/*")):
                             "the full test suite passes with it; every check must stay silent on it")
     meta.setdefault("analysis_error_ok", {})
     json.dump(meta, open(mp, "w"), indent=1)
-    print("imported", f"{g}-{n}")
+    print("imported", f"{g}-{TAG}{n}")
